@@ -1,7 +1,12 @@
 package zap
 
+import (
+	segment "github.com/blevesearch/scorch_segment_api/v2"
+)
+
 func init() {
 	vRegister("H02_stored", H02_stored)
+	vRegister("H02_ids", H02_ids)
 }
 
 // H02_stored: stored fields, ids, id lookup, Count, Fields, early-stopping visitors.
@@ -15,6 +20,10 @@ func H02_stored() {
 			{name: "s", terms: []string{"a"}, store: true, multi: true, allTerm: true},
 			{name: "b", terms: []string{"x"}, store: true, allTerm: true},
 		}}
+	if vParam("ids", 1) == 1 {
+		// ids of different lengths: a longer id that sorts before the largest key, and one that is a prefix of another
+		cfg.ids = [][]string{{"d9", "d10", "d"}, {"x", "xx", "xxx"}}[vChoice("ids", 2)]
+	}
 	docs, sp := vGenBatch(cfg)
 	var z ZapPlugin
 	seg, _, err := z.newWithChunkMode(docs, DefaultChunkMode)
@@ -30,4 +39,47 @@ func H02_stored() {
 		vAssert(err == nil, "stop-err")
 		vAssert(n == stop, "stop-exact")
 	}
+}
+
+// H02_ids: DocNumbers / DocID / Count for external ids of different lengths and prefix relations (a longer id
+// that sorts before the largest key, ids that are prefixes of each other, a one-byte id), on built and
+// re-opened segments; requests containing absent ids around the largest key, the empty id and duplicates.
+func H02_ids() {
+	sets := [][]string{{"d9", "d10", "d"}, {"x", "xx", "xxx"}, {"b", "a\xffz", "ab"}}
+	ids := sets[vChoice("ids", len(sets))]
+	n := 1 + vChoice("nDocs", 3)
+	docs, sp := vGenBatchFixed(gCfg{prefix: "", idBase: "q", nDocs: n, wide: -1, ids: ids,
+		fields: []gField{{name: "f", terms: []string{"a"}, fixFreq: true, store: true}}})
+	var z ZapPlugin
+	segI, _, err := z.newWithChunkMode(docs, DefaultChunkMode)
+	vAssert(err == nil, "build")
+	var seg segment.Segment = segI
+	if vBool("reopen") {
+		vAssert(segI.(*SegmentBase).Persist(vP("ids.zap")) == nil, "persist")
+		seg, err = z.Open(vP("ids.zap"))
+		vAssert(err == nil, "open")
+	}
+	sCheckStored(seg, sp, "")
+	sCheckDocNumbers(seg, sp, "")
+	// every candidate id alone, and all of them in one request (with a duplicate)
+	cands := append(append([]string{}, ids...), "", "d", "d1", "d99", "d9\x00", "xxxx", "w", "y", "a", "b\x00")
+	present := map[string]int{}
+	for d := 0; d < n; d++ {
+		present[ids[d]] = d
+	}
+	total := 0
+	for _, c := range cands {
+		bm, err := seg.DocNumbers([]string{c})
+		vAssert(err == nil && bm != nil, "one-err")
+		if d, ok := present[c]; ok {
+			vAssert(bm.GetCardinality() == 1 && bm.Contains(uint32(d)), "one-present")
+		} else {
+			vAssert(bm.GetCardinality() == 0, "one-absent")
+		}
+	}
+	for range present {
+		total++
+	}
+	bm, err := seg.DocNumbers(append(append([]string{}, cands...), ids[0]))
+	vAssert(err == nil && bm.GetCardinality() == uint64(total), "all-card")
 }
